@@ -2,7 +2,7 @@
 # tools_seeded.sh <ID> <n> [checks...] : validate a sub-agent's seeded change in its scratch worktree
 # (suite passes with it, demo fails with it, demo passes without it), then run our checks against it.
 ID="$1"; N="$2"; shift 2
-W=/tmp/seed_$ID; O=/tmp/seed_$ID.out/$N
+PFX="${SEED_PREFIX:-seed}"; W=/tmp/${PFX}_$ID; O=/tmp/${PFX}_$ID.out/$N
 cd $W || exit 2
 export RUST_BACKTRACE=0
 git checkout -q -- . ; git clean -fdq src tests
